@@ -25,14 +25,14 @@ EXPLANATION = ("ParameterTable: one inductive step - from every valid table stat
                "the glue between kernel and generator is checked by running the real generator for n<=12, ncols<=6. DataCombination: shapes of <=3 lists with lengths 0..3 are enumerated "
                "with opaque proxy elements and compared with the nested-loop model (no arithmetic for a solver to decide there; stated as exhaustive enumeration).")
 ASSUMPTIONS = [
-    "DataPlotGrid: int(a/k) and np.ceil(a/k) are evaluated over the reals (exact); that binary64 division agrees for 0 <= a < 2^26, 1 <= k < 2^26 is a QF_FP lemma discharged by cvc5/z3 in the thorough tier only",
+    "DataPlotGrid: int(a/k) and np.ceil(a/k) are evaluated over the reals (exact); that binary64 division gives the same integers is a separate lemma: for 0 <= a < 2^26, 1 <= k < 2^26 under the standard rounding model (correctly rounded quotient = (a/k)(1+d), |d| <= 2^-53, exact for integral quotients; nonlinear arithmetic, both tiers) and bit-precisely (QF_BVFP, z3) for operands below 2^12 in the thorough tier (2^26 bit-precise did not finish in 600 s on z3 4.8/5.1 or cvc5 1.0)",
     "ParameterTable: string keys only (integer keys are read as positions by __getitem__: outside), record values are reals",
     "RowCollector: list mode (array=False); numeric columns only",
 ]
 OUTSIDE = ['ParameterTable without keys (plain list mode) beyond append/len/index', 'RowCollector array=True mode and heterogeneous columns', 'DataPlotGrid with ncols <= 0',
            'histories of table operations longer than one step are covered by the inductive step, not enumerated']
 BOUNDS = {'quick': 'table: 16 states x 9 operations x 4 key choices; rows: k<=4, 2 columns, lists and dicts, both directions; grid: unbounded n>=0, ncols>=1; combination: <=3 lists of length 0..3',
-          'thorough': 'rows k<=5; FP lemma re-proved'}
+          'thorough': 'rows k<=5; bit-precise FP lemma for operands < 2^12'}
 EXHAUSTIVE = {'quick': True, 'thorough': True}
 
 PT_PRE = '''
@@ -323,8 +323,7 @@ def grid_task(task):
         out['discharged'] += 1
         out['findings'].append({'key': 'grid/glue', 'what': f'DataPlotGrid generator does not cover the grid exactly once at {bad}', 'model': {'case': bad}, 'replay': GRID_REPLAY % (bad[0], bad[1])})
     out['samples'].append({'grid_kernels': [ast.unparse(k[3]) for k in kernels], 'nrows': ast.unparse(nrows_rhs)})
-    if task['tier'] != 'quick':
-        fp_lemma(out)
+    fp_model_lemma(out)
     out['stats'] = eng.stats.as_dict()
     return out
 
@@ -344,30 +343,71 @@ sys.exit(1 if bad else 0)
 '''
 
 
-def fp_lemma(out):
-    """binary64: trunc(a/k) = a div k and ceil(a/k) = ceil for integers 0 <= a < 2^26, 1 <= k < 2^26 (QF_BVFP)"""
+FP_BITS = 12
+
+
+def fp_model_lemma(out):
+    """binary64 division of integers 0 <= a < 2^26 by 1 <= k < 2^26 under the standard rounding model (the correctly rounded quotient is
+    (a/k)(1+d) with |d| <= 2^-53, and exact when a/k is an integer): trunc gives a div k, ceil gives the integer ceiling.  Nonlinear integer/real arithmetic."""
+    a, k, q, r = z3.Ints('fa fk fq fr')
+    d = z3.Real('fd')
+    B = 1 << 26
+    eps = z3.Q(1, 1 << 53)
+    dom = [a >= 0, a < B, k >= 1, k < B, a == q * k + r, r >= 0, r < k, d >= -eps, d <= eps, z3.Implies(r == 0, d == 0)]
+    vk = z3.ToReal(a) * (1 + d)          # k * fl(a/k)
+    claims = (('rounding model: q <= fl(a/k) < q+1, so int(a/k) = a div k', z3.And(z3.ToReal(q * k) <= vk, vk < z3.ToReal((q + 1) * k))),
+              ('rounding model: ceil(fl(a/k)) is the integer ceiling', z3.If(r == 0, vk == z3.ToReal(q * k), z3.And(z3.ToReal(q * k) < vk, vk <= z3.ToReal((q + 1) * k)))))
+    for name, claim in claims:
+        out['obligations'] += 1
+        s = z3.Solver()
+        s.set('timeout', 120000)
+        s.add(*dom, z3.Not(claim))
+        res = str(s.check())
+        if res == 'unsat':
+            out['discharged'] += 1
+        else:
+            out['inconclusive'].append(f'FP lemma ({name}): solver answered {res}')
+    # vacuity: the domain is satisfiable and a wrong claim is refuted
+    out['canaries'] += 1
+    s = z3.Solver()
+    s.set('timeout', 60000)
+    s.add(*dom, z3.Not(2 * vk < z3.ToReal((2 * q + 1) * k)))
+    out['canaries_fired'] += 1 if str(s.check()) == 'sat' else 0
+
+
+def fp_lemma(out, which):
+    """bit-precise binary64 (QF_BVFP): trunc(a/k) = a div k / ceil(a/k) = ceiling for integers 0 <= a < 2^FP_BITS, 1 <= k < 2^FP_BITS"""
     a, k = z3.BitVec('a', 32), z3.BitVec('k', 32)
     fa = z3.fpSignedToFP(z3.RNE(), a, z3.Float64())
     fk = z3.fpSignedToFP(z3.RNE(), k, z3.Float64())
     q = z3.fpDiv(z3.RNE(), fa, fk)
     tr = z3.fpToSBV(z3.RTZ(), q, z3.BitVecSort(32))
     ce = z3.fpToSBV(z3.RTP(), q, z3.BitVecSort(32))
-    dom = [a >= 0, a < (1 << 26), k >= 1, k < (1 << 26)]
+    dom = [a >= 0, a < (1 << FP_BITS), k >= 1, k < (1 << FP_BITS)]
     qd = z3.UDiv(a, k)
-    for name, claim in (('trunc(a/k) = a div k', tr == qd), ('ceil(a/k) = ceil', ce == z3.If(z3.URem(a, k) == 0, qd, qd + 1))):
-        out['obligations'] += 1
-        s = z3.Solver()
-        s.set('timeout', 300000)
-        s.add(*dom, z3.Not(claim))
-        r = str(s.check())
-        if r == 'unsat':
-            out['discharged'] += 1
-        elif r == 'sat':
-            out['discharged'] += 1
-            m = s.model()
-            out['inconclusive'].append(f'FP lemma {name} refuted at a={m[a]}, k={m[k]}: the integer model of int(a/k) is not valid')
-        else:
-            out['inconclusive'].append(f'FP lemma {name}: solver answered {r} within 300 s')
+    name, claim = (('trunc(a/k) = a div k', tr == qd), ('ceil(a/k) = ceil', ce == z3.If(z3.URem(a, k) == 0, qd, qd + 1)))[which]
+    out['obligations'] += 1
+    s = z3.Solver()
+    s.set('timeout', 1500000)
+    s.add(*dom, z3.Not(claim))
+    r = str(s.check())
+    if r == 'unsat':
+        out['discharged'] += 1
+    elif r == 'sat':
+        out['discharged'] += 1
+        m = s.model()
+        out['inconclusive'].append(f'FP lemma {name} refuted at a={m[a]}, k={m[k]}: the integer model of int(a/k) is not valid')
+    else:
+        out['inconclusive'].append(f'bit-precise FP lemma {name} (operands < 2^{FP_BITS}): solver answered {r} within 1500 s')
+
+
+def fp_task(task):
+    out = {'shapes': 1, 'paths': 1, 'obligations': 0, 'discharged': 0, 'raised_paths': 0, 'nontrivial': 1, 'findings': [], 'inconclusive': [], 'samples': [], 'canaries': 0, 'canaries_fired': 0}
+    import time as _t
+    t0 = _t.time()
+    fp_lemma(out, task['which'])
+    out['stats'] = {'queries': 1, 'unsat': out['discharged'], 'sat': 0, 'unknown': len(out['inconclusive']), 'solver_s': round(_t.time() - t0, 1), 'paths': 1}
+    return out
 
 
 def scenarios(tier, seed):
@@ -411,7 +451,9 @@ NT = 15
 
 
 def tasks(tier, seed):
-    return [{'id': f'c20-{i:02d}', 'tier': tier, 'seed': seed, 'slice': [i, NT], 'part': 'S'} for i in range(NT)] + [{'id': 'c20-grid', 'tier': tier, 'seed': seed, 'part': 'G'}]
+    return ([{'id': f'c20-{i:02d}', 'tier': tier, 'seed': seed, 'slice': [i, NT], 'part': 'S'} for i in range(NT)]
+            + [{'id': 'c20-grid', 'tier': tier, 'seed': seed, 'part': 'G'}]
+            + ([{'id': f'c20-fp-{w}', 'tier': tier, 'seed': seed, 'part': 'F', 'which': w} for w in (0, 1)] if tier != 'quick' else []))
 
 
 import contextlib
@@ -425,6 +467,8 @@ def nopatch():
 def run_task(task):
     if task['part'] == 'G':
         return grid_task(task)
+    if task['part'] == 'F':
+        return fp_task(task)
     S = scenarios(task['tier'], task['seed'])
     i, k = task['slice']
     return run_scenarios(S[i::k], nopatch, timeout_ms=20000, seed=task['seed'], wall_s=600, max_paths=20000)
